@@ -146,8 +146,8 @@ public:
     if (!missingInput) { Json f = Json::object(); f["op"] = "file"; f["path"] = srcName; f["src"] = text; f["role"] = "source"; f["origin"] = origin; ops.push(f); }
     // Output naming.
     std::string outName; int spelling = (int)r.below(4);    // 0: default, 1: -o after, 2: -o before, 3: --output
-    static const char *names[] = {"out.bin", "b.out", "result", "a.out", "x.bin"};
-    if (spelling) outName = names[r.below(5)];
+    static const char *names[] = {"out.bin", "b.out", "result", "a.out", "x.bin", "prog", "prog.x.bin", "prog.S.out", "a.bin", ".out", "a.out.tmp", "PROG.X"};
+    if (spelling) outName = names[r.below(r.chance(2, 3) ? 5 : 12)];
     if (spelling && r.chance(1, 30)) outName = srcName;       // output path equals the input path
     // Pre-existing files.
     auto junk = [&]() { std::string d; size_t n = 1 + (size_t)r.below(40); for (size_t q = 0; q < n; q++) d.push_back((char)r.below(256)); return d; };
@@ -208,6 +208,7 @@ public:
     else { size_t n = (size_t)r.below(6); for (size_t q = 0; q < n; q++) in.push_back((char)(r.chance(1, 4) ? r.below(256) : 1 + r.below(20))); }
     inv["stdin_hex"] = sim::toHex(in);
     if (r.chance(1, 12)) { inv["inject_open_failure"] = true; }   // recorded, never judged
+    if ((tool == "xrun" || tool == "hexsim") && r.chance(1, 12)) inv["stdin_closed"] = true;   // started with descriptor 0 closed
     ops.push(inv);
     plan["config"] = cfg; plan["ops"] = ops;
     return plan;
@@ -317,7 +318,8 @@ public:
   Inv invoke(const std::string &tool, const std::vector<std::string> &args, const std::string &input) {
     Inv r;
     r.before = sim::fs::snapshot();
-    ss.attach(input);
+    ss.attach(closedNow ? std::string() : input);
+    sim::fs::setStdinClosed(closedNow);
     std::vector<std::string> argv;
     argv.push_back(tool);
     for (auto &a : args) argv.push_back(a);
@@ -333,7 +335,8 @@ public:
       return hexsim_main(argc, av.data());
     }, 30);
     sim::simclock::deactivate();
-    r.out = ss.out.data; r.err = ss.err.data; r.consumed = ss.in.consumed();
+    sim::fs::setStdinClosed(false);
+    r.out = ss.out.data; r.err = ss.err.data; r.consumed = closedNow ? 0 : ss.in.consumed();
     ss.detach();
     r.after = sim::fs::snapshot();
     std::string line = tool;
@@ -353,12 +356,14 @@ public:
     const char *path = getenv("VERIF_OBS_FILE");
     if (obsLeft <= 0 || !path || obsSuppress) return;
     if (r.t.kind == sim::Trapped::CRASHED) return;
+    if (ss.out.overflowed || ss.err.overflowed) return;     // more than the simulated streams keep (1 MB): nothing to compare byte for byte
     obsLeft--;
     Json j = Json::object();
     j["tool"] = tool;
     Json av = Json::array(); for (auto &a : args) av.push(a);
     j["argv"] = av;
-    j["stdin_hex"] = sim::toHex(input);
+    j["stdin_hex"] = sim::toHex(closedNow ? std::string() : input);
+    if (closedNow) j["stdin_closed"] = true;
     j["status"] = r.status();
     j["stdout_hex"] = sim::toHex(r.out);
     j["stderr_nonempty"] = !r.err.empty();
@@ -384,6 +389,8 @@ public:
   }
 
   // hexref's verdict on a binary file + input.
+  bool isaUsedFiles = false;      // did the last isaOutcome() touch a file stream
+  bool closedNow = false;         // invocations run with standard input closed (descriptor-0 model of sim::fs)
   bool isaOutcome(const std::string &file, const std::string &input, uint64_t budget, uint32_t &exitValue, std::string &out, size_t &consumed, uint64_t *stepsOut = nullptr) {
     if (file.size() < 8) return false;
     uint32_t words = 0; std::memcpy(&words, file.data(), 4);
@@ -409,12 +416,12 @@ public:
         // past its end, say) corrupts hexsim's own object, and what follows is undefined.
         bool stub = (m.pc + 2) < W * 4 && m.byteAt(m.pc + 1) == 0x30 && m.byteAt(m.pc + 2) == 0xD3;
         if ((inst >> 4) == 8 && addr >= W && addr <= W + 2 && stub) { hi[addr - W] = m.areg; m.pc++; m.oreg = 0; continue; }   // the store, kept aside
-        if (inst == 0xD3 && m.oreg == 0 && m.areg == 0 && m.mem[1] + 2 >= W && m.mem[1] + 2 <= W + 2) { exitValue = hi[m.mem[1] + 2 - W]; out = rio.out; consumed = rio.inPos; if (stepsOut) *stepsOut = s + 1 + skipped; return !rio.missingFileReads; }
+        if (inst == 0xD3 && m.oreg == 0 && m.areg == 0 && m.mem[1] + 2 >= W && m.mem[1] + 2 <= W + 2) { exitValue = hi[m.mem[1] + 2 - W]; out = rio.out; consumed = rio.inPos; if (stepsOut) *stepsOut = s + 1 + skipped; { isaUsedFiles = false; for (int q = 0; q < 8; q++) if (rio.fileMode[q] != hexref::Io::CLOSED) isaUsedFiles = true; return !rio.missingFileReads; } }
         return false;
       }
       m.step();
       if (m.last.wrote) dirty.push_back(m.last.waddr);
-      if (m.last.exited) { exitValue = m.exitValue; out = rio.out; consumed = rio.inPos; if (stepsOut) *stepsOut = s + 1 + skipped; return !rio.missingFileReads; }
+      if (m.last.exited) { exitValue = m.exitValue; out = rio.out; consumed = rio.inPos; if (stepsOut) *stepsOut = s + 1 + skipped; { isaUsedFiles = false; for (int q = 0; q < 8; q++) if (rio.fileMode[q] != hexref::Io::CLOSED) isaUsedFiles = true; return !rio.missingFileReads; } }
     }
     return false;
   }
@@ -431,6 +438,7 @@ public:
 
   void run(const Json &plan, Outcome &o) {
     sim::fs::reset();
+    closedNow = false;
     std::string nearCopyPath; uint64_t nearCopy = 0;
     std::string srcName, text, origin; bool haveSource = false;
     const Json *invp = nullptr;
@@ -523,7 +531,12 @@ public:
       // instruction is a line of output.
       bool traced = std::find(args.begin(), args.end(), "-t") != args.end() || std::find(args.begin(), args.end(), "--trace") != args.end();
       std::string eo; size_t ec = 0;
+      bool wantClosed = inv.getBool("stdin_closed");
+      if (wantClosed) input.clear();
       if (!isaOutcome(lr.bytes, input, traced ? 3000 : 200000, isaExit, eo, ec, &isaSteps)) { o.note = "skipped:program_outside_domain_or_budget"; return; }
+      // With file streams the first simin/simout file itself lands on descriptor 0: not modelled by the ISA.
+      closedNow = wantClosed && !isaUsedFiles;
+      if (closedNow) o.count("fault.stdin_closed");
       isaKnown = true;
       resolveRelativeLimit(args, isaSteps);
     }
@@ -691,11 +704,15 @@ public:
     uint32_t exitValue = 0; std::string out; size_t consumed = 0;
     bool traced = std::find(args.begin(), args.end(), "-t") != args.end();
     uint64_t steps = 0;
-    bool known = isaOutcome(lr.bytes, input, traced ? 3000 : 200000, exitValue, out, consumed, &steps);
+    bool wantClosed = inv.getBool("stdin_closed");
+    std::string inputUsed = wantClosed ? std::string() : input;
+    bool known = isaOutcome(lr.bytes, inputUsed, traced ? 3000 : 200000, exitValue, out, consumed, &steps);
     if (!known) { o.note = "skipped:program_outside_domain_or_budget"; return; }
+    closedNow = wantClosed && !isaUsedFiles;
+    if (closedNow) o.count("fault.stdin_closed");
     resolveRelativeLimit(args, steps);
     maxCycles = limitOf(args);
-    Inv r = invoke("hexsim", args, input);
+    Inv r = invoke("hexsim", args, inputUsed);
     o.nontrivial = true;
     o.simInstr = 1;
     o.stateKeys.push_back(std::string("c14 hexsim ") + (limited ? "limited" : "unlimited") + " exit=" + std::to_string(exitValue & 0xFF));
